@@ -237,6 +237,50 @@ pub(crate) fn record_dial(namespace: crate::NamespaceId, peer: iroh::PublicKey, 
     })
 }
 
+// ---- H9: what the live actor hands to gossip and to the downloader is recorded -----------------
+
+thread_local! {
+    #[allow(clippy::type_complexity)]
+    static BROADCASTS: std::cell::RefCell<Option<Vec<(crate::NamespaceId, bool, Vec<u8>)>>> =
+        const { std::cell::RefCell::new(None) };
+    #[allow(clippy::type_complexity)]
+    static DOWNLOADS: std::cell::RefCell<Option<Vec<(crate::NamespaceId, iroh_blobs::Hash, iroh::PublicKey)>>> =
+        const { std::cell::RefCell::new(None) };
+}
+
+/// Start (or stop) recording, on this thread, the messages handed to an active gossip topic and
+/// the requests handed to the downloader. Recording changes nothing else: both still happen.
+pub fn set_live_recording(on: bool) {
+    BROADCASTS.with(|d| *d.borrow_mut() = if on { Some(Vec::new()) } else { None });
+    DOWNLOADS.with(|d| *d.borrow_mut() = if on { Some(Vec::new()) } else { None });
+}
+
+/// Take the gossip messages recorded so far: `(topic, neighbors only, bytes)`.
+pub fn take_broadcasts() -> Vec<(crate::NamespaceId, bool, Vec<u8>)> {
+    BROADCASTS.with(|d| d.borrow_mut().as_mut().map(std::mem::take).unwrap_or_default())
+}
+
+/// Take the download requests recorded so far: `(document, hash, provider just added)`.
+pub fn take_downloads() -> Vec<(crate::NamespaceId, iroh_blobs::Hash, iroh::PublicKey)> {
+    DOWNLOADS.with(|d| d.borrow_mut().as_mut().map(std::mem::take).unwrap_or_default())
+}
+
+pub(crate) fn record_broadcast(namespace: crate::NamespaceId, neighbors: bool, message: &[u8]) {
+    BROADCASTS.with(|d| {
+        if let Some(v) = d.borrow_mut().as_mut() {
+            v.push((namespace, neighbors, message.to_vec()));
+        }
+    })
+}
+
+pub(crate) fn record_download(namespace: crate::NamespaceId, hash: iroh_blobs::Hash, node: iroh::PublicKey) {
+    DOWNLOADS.with(|d| {
+        if let Some(v) = d.borrow_mut().as_mut() {
+            v.push((namespace, hash, node));
+        }
+    })
+}
+
 // ---- H5: control over the age-based automatic commit of the store ------------------------------
 
 thread_local! {
